@@ -110,8 +110,73 @@ func runC06(p *core.Prog, r *core.Report) {
 		}
 		// inputName / inputValue results must be written
 		r.Check(calls["manifest.inputName"] && calls["manifest.inputValue"], "C06.R1", "hashModule/inputs-written", "for every input its kind tag and its value are written into the hash", fmt.Sprintf("written call results: %v", keysOf(calls)), p.Pos(fn.Pos()))
-		// recursion
-		r.Check(calls["manifest.ModuleHashes.HashModule"] && calls["manifest.ModuleHashes.hashModule"], "C06.R1", "hashModule/recursion", "the hashes of all ancestors and of the block-filter module are written into the hash", fmt.Sprintf("written call results: %v", keysOf(calls)), p.Pos(fn.Pos()))
+		// recursion: a written value is the direct result of hashing (a) the module resolved from BlockFilter.Module, (b) each element of AncestorsOf(module.Name)
+		hm, hM := p.FuncObj(pkgMani, "ModuleHashes.hashModule"), p.FuncObj(pkgMani, "ModuleHashes.HashModule")
+		bfT := p.Named(pkgPBV1, "Module_BlockFilter")
+		okFilter, okAnc, cacheUse := false, false, ""
+		cacheF := p.Field(pkgMani, "ModuleHashes", "cache")
+		core.Instrs(fn, func(in ssa.Instruction) {
+			c, ok := in.(*ssa.Call)
+			if !ok {
+				return
+			}
+			cl := core.CommonCallee(c.Common())
+			if cl == nil {
+				return
+			}
+			k := calleeKey(cl)
+			if !((k == "bytes.Write" || k == "bytes.WriteString") && strings.Contains(cl.Type().(*types.Signature).Recv().Type().String(), "bytes.Buffer")) {
+				return
+			}
+			arg := c.Call.Args[len(c.Call.Args)-1]
+			if _, isConst := arg.(*ssa.Const); isConst {
+				return
+			}
+			// the value written, traced without entering callees
+			var rec *ssa.Call
+			seenV := map[ssa.Value]bool{}
+			var find func(v ssa.Value, d int)
+			find = func(v ssa.Value, d int) {
+				if v == nil || seenV[v] || d > 6 {
+					return
+				}
+				seenV[v] = true
+				switch x := v.(type) {
+				case *ssa.Call:
+					if cc := core.CommonCallee(x.Common()); cc == hm || cc == hM {
+						rec = x
+						return
+					}
+				case *ssa.Extract:
+					find(x.Tuple, d+1)
+				case *ssa.Convert:
+					find(x.X, d+1)
+				case *ssa.ChangeType:
+					find(x.X, d+1)
+				case *ssa.Phi:
+					for _, e := range x.Edges {
+						find(e, d+1)
+					}
+				}
+			}
+			find(arg, 0)
+			if rec != nil {
+				mod := rec.Call.Args[2]
+				src := core.TraceWithResolvers(mod, 0, res, nil)
+				if src.HasCall(p.FuncObj(pkgMani, "ModuleGraph.Module")) && src.KeyFields[core.FieldOf(bfT, "Module")] {
+					okFilter = true
+				}
+				if src.HasCall(p.FuncObj(pkgMani, "ModuleGraph.AncestorsOf")) && src.KeyFields[core.FieldOf(mt0(p), "Name")] {
+					okAnc = true
+				}
+			}
+			if core.Trace(arg, 0).Fields[cacheF] {
+				cacheUse = p.Pos(c.Pos())
+			}
+		})
+		r.Check(okFilter, "C06.R1", "hashModule/recursion-filter", "the hash of the block-filter module — computed by hashing the module resolved from BlockFilter.Module — is written into the hash", "no written value is the direct result of hashing the resolved filter module", p.Pos(fn.Pos()))
+		r.Check(okAnc, "C06.R1", "hashModule/recursion-ancestors", "the hash of every module returned by AncestorsOf(module.Name) is written into the hash", "no written value is the direct result of hashing the ancestors", p.Pos(fn.Pos()))
+		r.Check(cacheUse == "", "C06.R1", "hashModule/no-cache-read", "nothing hashed is read back from the per-request hash cache (a cache entry exists only if someone hashed that module before: the identifier would depend on call order)", "a value read from ModuleHashes.cache is written into the hash at "+cacheUse, p.Pos(fn.Pos()))
 		r.Check(calls["pb/sf/substreams/v1.Module.BlockFilterQueryString"], "C06.R1", "hashModule/filter-query", "the block filter's query string is part of the hash", "BlockFilterQueryString result not written", p.Pos(fn.Pos()))
 
 		mt := modT()
@@ -468,3 +533,5 @@ func checkCachePaths(p *core.Prog, r *core.Report, rule string) {
 		}
 	}
 }
+
+func mt0(p *core.Prog) *types.Named { return p.Named(pkgPBV1, "Module") }
